@@ -49,7 +49,7 @@ MANIFEST = dict(
 IMP_CS = ['Coq.Lists.List', 'Coq.NArith.NArith', 'Coq.ZArith.ZArith', 'Coq.Bool.Bool', 'SV.Fmt.CmdSeq', 'SV.Gen.CmdSeqFmt_gen']
 IMP_SMD = ['Coq.Lists.List', 'Coq.NArith.NArith', 'Coq.Arith.PeanoNat', 'Coq.Bool.Bool', 'SV.Fmt.SmdTpl', 'SV.Fmt.SmdWords', 'SV.Gen.SmdTpl_gen']
 IMP_IMG = ['Coq.Lists.List', 'Coq.NArith.NArith', 'Coq.Bool.Bool', 'SV.Fmt.ScenesImage']
-IMP_TXT = ['Coq.Lists.List', 'Coq.NArith.NArith', 'Coq.Bool.Bool', 'SV.Fmt.TextFields', 'SV.Gen.TextFields_gen']
+IMP_TXT = ['Coq.Lists.List', 'Coq.NArith.NArith', 'Coq.Bool.Bool', 'SV.Fmt.SndStacks', 'SV.Fmt.TextFields', 'SV.Gen.TextFields_gen']
 IMP_CB = ['Coq.Lists.List', 'Coq.NArith.NArith', 'Coq.Bool.Bool', 'Coq.Arith.PeanoNat', 'SV.Fmt.ChoreoBin', 'SV.Gen.ChoreoBin_gen']
 IMP_IMGCFG = ['Coq.Lists.List', 'Coq.NArith.NArith', 'Coq.Bool.Bool', 'SV.Fmt.ScenesImage', 'SV.Fmt.ScenesImageCfg', 'SV.Gen.ScenesImg_gen']
 
@@ -659,6 +659,115 @@ def corr_image_pool(ck: Ck) -> None:
         ck.extra['image_pool_disagreement'] = cases[bad[0]][1]
 
 
+
+# ================================================================================================ soundscript operator stacks
+
+PRE_SNDSTK = PRE + '''
+Definition stk_n (s : stk) : N := match s with SStart => 0 | SUpdate => 1 | SStop => 2 end.
+Definition flat_o (o : out N) : list N :=
+  (if o_v2 o then 1 else 0) :: N.of_nat (length (o_blocks o)) :: flat_map (fun p => stk_n (fst p) :: N.of_nat (length (snd p)) :: snd p) (o_blocks o).
+Definition flat_f (v : option (list N)) : list N := match v with None => [0] | Some l => (1 + N.of_nat (length l)) :: l end.
+Definition flat_s (x : sound N) : list N := (if force x then 1 else 0) :: flat_f (f_start x) ++ flat_f (f_update x) ++ flat_f (f_stop x).
+Definition okc (c : sound N * list stk * option (list N * list N * list N)) : bool :=
+  let '(x0, ts, e) := c in
+  let x := touches ts x0 in
+  let '(o1, x1) := SndStacks.export snd_v2_guard snd_stack_blocks x in
+  let '(o2, _) := SndStacks.export snd_v2_guard snd_stack_blocks x1 in
+  match e with Some (e1, e2, e3) => nl_eqb (flat_o o1) e1 && nl_eqb (flat_o o2) e2 && nl_eqb (flat_s (SndStacks.parse o1)) e3 | None => false end.
+'''
+
+
+def corr_snd_stacks(ck: Ck) -> None:
+    """`SndStacks.export snd_v2_guard snd_stack_blocks` / `parse` (Fmt/SndStacks.v over the census regenerated from sndscript.py) vs
+    Sound.export / Sound.parse_one on EVERY small state (force flag x each stack None / empty / one child / two children = 128) under
+    histories that read the lazy properties first: what is written (version-2 keys, which blocks with which children), what a second
+    export of the same object writes, and what the reader builds from the first output."""
+    from srctools.keyvalues import Keyvalues
+    from srctools.sndscript import Sound
+    tr = ck.extra.get('translated', {}).get('TextFields_gen', {})
+    side = tr.get('stack_model')
+    if not side:
+        ck.obligation('correspondence:sndscript-stacks', False, 'no stack census')
+        return
+    fields = side['stack_fields']                                   # private fields in reader order = SStart, SUpdate, SStop
+    pub_of = {f: pubname for pubname, (f, _lazy) in side['lazy_properties'].items()}
+    block_names = [nm for nm, _ in tr['stacks_read']]
+    ctor_param = side['ctor_param_of_field']
+    STK = ['SStart', 'SUpdate', 'SStop']
+    shapes = [None, [], [1], [2, 3]]
+    histories = [[], [0], [1], [2], [0, 1], [2, 0], [0, 1, 2], [1, 1, 2]]
+    per_state = ck.budget(2, len(histories))
+    cases = []
+
+    def observe(text: str) -> list[int]:
+        kv = Keyvalues.parse(text).find_key('S')
+        has_ver = 1 if kv.int('soundentry_version', 1) == 2 else 0
+        has_blk = 1 if 'operator_stacks' in kv else 0
+        out = [has_ver if has_ver == has_blk else 2 + has_ver]
+        blocks = list(kv.find_key('operator_stacks', or_blank=True))
+        out.append(len(blocks))
+        for b in blocks:
+            out.append(block_names.index(b.real_name) if b.real_name in block_names else 9)
+            ids = [int(c.real_name[1:]) for c in b]
+            out += [len(ids), *ids]
+        return out
+
+    def mk(sh):
+        return None if sh is None else Keyvalues('', [Keyvalues(f'k{i}', 'v') for i in sh])
+
+    def opt(sh):
+        return 'None' if sh is None else f'(Some {nl(sh)})'
+    for force in (False, True):
+        for a in shapes:
+            for b in shapes:
+                for c in shapes:
+                    st = [a, b, c]
+                    hs = histories if per_state >= len(histories) else ck.rng.sample(histories, per_state)
+                    for h in hs:
+                        try:
+                            snd = Sound('S', ['x.wav'], force_v2=force, **{ctor_param[f]: mk(sh) for f, sh in zip(fields, st)})
+                            for t in h:
+                                if fields[t] in pub_of:
+                                    getattr(snd, pub_of[fields[t]])
+                            f1 = io.StringIO()
+                            snd.export(f1)
+                            f2 = io.StringIO()
+                            snd.export(f2)
+                            o1, o2 = observe(f1.getvalue()), observe(f2.getvalue())
+                            back = Sound.parse_one(Keyvalues.parse(f1.getvalue()).find_key('S'))
+                            rd = [1 if back.force_v2 else 0]
+                            for f in fields:
+                                v = getattr(back, f)
+                                rd += [0] if v is None else [1 + len(v), *[int(ch.real_name[1:]) for ch in v]]
+                            exp = f'Some ({nl(o1)}, {nl(o2)}, {nl(rd)})'
+                            ck.hist('snd_stacks_case', 'v2' if o1[0] == 1 else 'v1' if o1[0] == 0 else 'mixed')
+                        except Exception as e:
+                            exp = 'None'
+                            ck.hist('snd_stacks_case', 'error:' + type(e).__name__)
+                        cases.append((f'(mkSnd {str(force).lower()} {opt(a)} {opt(b)} {opt(c)}, {coq_list(STK[t] for t in h)}, {exp})',
+                                      {'force_v2': force, 'stacks': st, 'properties_read_first': [pub_of.get(fields[t]) for t in h], 'impl': exp}))
+                        ck.count('snd_stacks_cases')
+                        if any(st) or h:
+                            ck.seen(('sndstk', force, json.dumps(st), tuple(h)))
+    jobs = []
+    for lo in range(0, len(cases), 400):
+        jobs.append((IMP_TXT, ['bad_idx okc 0 ' + coq_list(c for c, _ in cases[lo:lo + 400])], f'sndstk{lo}', PRE_SNDSTK))
+    bad: list[int] = []
+    for lo, vals in zip(range(0, len(cases), 400), par_eval(ck, jobs)):
+        if vals is None:
+            ck.obligation('correspondence:sndscript-stacks', False, 'model could not be evaluated')
+            ck.tie_broken.append('correspondence soundscript stacks: model evaluation failed')
+            return
+        bad += [lo + i for i in parse_coq_N_list(vals[0])]
+    ck.obligation('correspondence:sndscript-stacks', not bad,
+                  f'{len(cases)} cases = all 128 small states (force flag x each stack None / empty / 1 / 2 children) x {per_state} of {len(histories)} '
+                  f'histories of lazy-property reads: SndStacks.export / parse over the generated census vs Sound.export (first and second export of the '
+                  f'same object) and Sound.parse_one: {len(bad)} disagreements')
+    if bad:
+        ck.tie_broken.append('correspondence soundscript stacks (Fmt/SndStacks.v over Gen/TextFields_gen.v vs Sound.export / parse_one)')
+        ck.extra['snd_stacks_disagreement'] = cases[bad[0]][1]
+
+
 # ================================================================================================ binary choreo correspondence
 
 def _f32bits(x: float) -> int:
@@ -937,6 +1046,37 @@ def search_format(ck: Ck, name: str, n: int) -> None:
                       'how': f'harness.c20_util.roundtrip(FORMATS[{name!r}], spec)'})
 
 
+OBSERVER_QUICK = {'cmdseq': 40, 'smd': 80, 'sndscript': 300, 'vmt': 150, 'pcf': 30, 'vcd-text': 50, 'vcd-binary': 50, 'scenes-image': 5}
+
+
+def observer_search(ck: Ck, name: str, n: int) -> None:
+    """Histories with a bystander: read every property (lazy ones included) of the value, or write it once, before writing it --
+    the output must be the same (harness.c20_util.observer_check)."""
+    fmt = U.FORMATS[name]
+    found: dict[str, tuple] = {}
+    for _ in range(n):
+        spec = fmt.gen(ck.rng)
+        ck.count(f'observer_{name}')
+        res = U.observer_check(fmt, spec)
+        ck.hist('observer_' + name, 'same' if res is None else res[0])
+        if res is None:
+            continue
+        kind = (res[0], res[1])
+        key = f'{name}:{res[0]}:{res[1]}'
+        if key in found:
+            continue
+
+        def fails(sp, kind=kind):
+            q = U.observer_check(fmt, sp)
+            return q is not None and (q[0], q[1]) == kind
+        small = U.shrink_spec(spec, fails, budget=120) if len(found) < 4 else spec
+        found[key] = (small, U.observer_check(fmt, small) or res)
+    for key, (small, r) in found.items():
+        ck.violation(key, f'{name}: {r[0]} ({r[1]}): what is written depends on whether the value was looked at (or written) before',
+                     {'format': name, 'oracle': 'observer', 'spec': small, 'result': [r[0], r[1], r[2]],
+                      'how': f'harness.c20_util.observer_check(FORMATS[{name!r}], spec)'})
+
+
 def independent_summary(sc) -> tuple[int, int, list[str]]:
     """(duration_ms, last_speak_ms, sounds) of a scene, computed without Scene.duration / Scene.used_sounds / playback_caption."""
     from fractions import Fraction
@@ -1185,6 +1325,12 @@ def run(ck: Ck) -> None:
             'sndscript_no_escape_outside_quotes': 'no_escape_outside_quotes snd_fields',
             'sndscript_every_stack_block_written_from_the_attribute_it_is_read_into': 'stacks_paired snd_stacks_written snd_stacks_read',
             'sndscript_field_census_nonempty': 'Nat.leb 5 (length snd_fields) && Nat.leb 3 (length snd_stacks_written)',
+            'sndscript_version_2_test_does_not_ask_whether_a_lazy_stack_exists': 'SndStacks.guard_no_presence_test snd_v2_guard',
+            'sndscript_version_2_test_covers_the_force_flag_and_every_stack': 'SndStacks.guard_covers_force snd_v2_guard && SndStacks.guard_covers_every_stack snd_v2_guard',
+            'sndscript_every_stack_block_written_iff_it_has_children_from_its_own_stack_under_its_own_name': 'SndStacks.blocks_okb snd_stack_blocks',
+            'sndscript_version_2_keys_and_stacks_block_written_together_and_read_that_way':
+                'snd_v2_test_writes_version_2_and_the_stacks_block && snd_reader_force_is_version_eq_2 && snd_reader_stacks_exist_iff_block_present',
+            'sndscript_stack_census_ok': 'SndStacks.guard_okb snd_v2_guard && SndStacks.blocks_okb snd_stack_blocks',
             'vmt_free_text_quoted_or_quoted_on_demand_except_shader': 'free_text_quoted_or_on_demand 1 vmt_fields',
             'vmt_field_census_nonempty': 'Nat.leb 5 (length vmt_fields)',
             'vcd_text_free_text_escaped_and_quoted': 'free_text_escaped cho_fields',
@@ -1210,6 +1356,9 @@ def run(ck: Ck) -> None:
     if m_obs:
         tie(ck.instance_obligations(list(dict.fromkeys(m_imps)), m_obs, name='tpl'), ' / '.join(m_what))
     lap('instance-smd+text+choreo-bin')
+    if built and ok4:
+        corr_snd_stacks(ck)
+    lap('corr-snd-stacks')
     if built and ok5:
         corr_choreo_bin(ck)
     lap('corr-choreo-bin')
@@ -1251,6 +1400,9 @@ def run(ck: Ck) -> None:
     for name, q in QUICK.items():
         search_format(ck, name, ck.budget(q, q * THOROUGH_FACTOR.get(name, 25)))
         lap('search-' + name)
+    for name, q in OBSERVER_QUICK.items():
+        observer_search(ck, name, ck.budget(q, q * 20))
+    lap('observer-histories')
     image_extra(ck, ck.budget(15, 150))
     sample_files(ck)
     lap('image-invariants+samples')
@@ -1272,6 +1424,8 @@ def run(ck: Ck) -> None:
         if any(k.startswith(pre) and not k.endswith('flex-animation-block') for k in keys):
             ck.explain(ob)
             ck.explain('translate:TextFields_gen')
+            if pre == 'sndscript:':
+                ck.explain('correspondence:sndscript-stacks')
     if any(k.startswith('scenes-image:') for k in keys):
         ck.explain('correspondence:scenes-image')
         ck.explain('instance:image_')
@@ -1282,7 +1436,7 @@ def replay(data: dict) -> int:
     r = data['replay']
     if isinstance(r, dict) and 'spec' in r and r.get('format') in U.FORMATS:
         fmt = U.FORMATS[r['format']]
-        res = U.roundtrip(fmt, r['spec'])
+        res = U.observer_check(fmt, r['spec']) if r.get('oracle') == 'observer' else U.roundtrip(fmt, r['spec'])
         print('spec   :', json.dumps(r['spec'])[:2000])
         try:
             out = fmt.write(fmt.build(r['spec']))
